@@ -142,6 +142,7 @@ def Sys.step (s : Sys) (op : Op) : Sys × Obs :=
   | .endR => if s.reader then ({ s with reader := false }, .ok) else (s, .badop)
   | .reopen => if s.w.isSome || s.reader then (s, .badop) else (s, .ok)
   | .probe => (s, if s.w.isSome then .blocked else .acquired)                            -- muTr.Lock()
+  | .raw => (s, .entries s.db)
   | op =>
     match slotOf op with
     | none => (s, .badop)
